@@ -104,7 +104,8 @@ SamplesOf(c, d) ==
 
 \* outcomes of randint(0, g, size=g): every outcome (level 2); all-first, identity, all-last, one rotation
 \* (level 1); identity and all-first (level 0).  The first sample of a behaviour is enumerated at the level
-\* ArgLevel of the configuration file, later samples at level Min(ArgLevel, 1) - 1 ... see DrawLevel.
+\* ArgLevel of the configuration file; when that is 2 (every outcome) the later samples take level 0, because
+\* the plain bootstraps cannot run with N = 1 and N = 2 at level 2 would be (27 x 256)^2 behaviours.
 DrawsL(g, lvl) == IF lvl >= 2 THEN [1..g -> 1..g]
                   ELSE {d \in [1..g -> 1..g] : \/ \A k \in 1..g : d[k] = 1
                                                \/ \A k \in 1..g : d[k] = k
@@ -356,8 +357,10 @@ SampleIsDraw ==
           /\ rc.bootP => \A g \in Range(PDesc(Source, rc.byP)) :
                 Count(PDesc(s, rc.byP), g) = Count(Pidx(rc, draw), g) * Count(PDesc(Source, rc.byP), g)
           /\ ~rc.bootP => s.pats = Source.pats
-  /\ phase \in {"stored", "done"} => \A k \in Cells :
-       LET ss == SamplesOf(rc, log[k[1]].d)[k[5]]  c == ev[k] IN
+  /\ phase \in {"stored", "done"} => \A i \in 1..smp :
+       LET SS == SamplesOf(rc, log[i].d) IN          \* (once per sample: TLC caches LET values)
+       \A k \in {kk \in Cells : kk[1] = i} :
+       LET ss == SS[k[5]]  c == ev[k] IN
        /\ Range(c.data.rows) \subseteq Range(ss.rows) /\ Range(c.data.conds) \subseteq Range(ss.pats)
        /\ rc.cv = "none" /\ rc.routine # "fixed" => c.data.rows = ss.rows /\ c.data.conds = ss.pats
        /\ rc.routine = "fixed" => c.data.rows = <<ss.rows[k[3]]>> /\ c.data.conds = ss.pats
@@ -390,12 +393,15 @@ ThetaFromOwnFold ==
           /\ Len(c.pred.theta.rows) > 0 /\ Len(c.pred.theta.conds) > 2
 
 \* c: NaN exactly for resamples (folds) too small to evaluate; a sample is NaN as a whole or not at all
-FoldOfKey(k) == SetsOf(rc, SamplesOf(rc, log[k[1]].d)[k[5]], log[k[1]].perms[k[4]][k[5]],
-                       PidxVar(rc, log[k[1]].d, k[5]))[k[3]]
+\* the fold list of (sample i, repetition r, variant v), recomputed from the logged outcomes
+FoldsOfLog(i, r, v) == SetsOf(rc, SamplesOf(rc, log[i].d)[v], log[i].perms[r][v], PidxVar(rc, log[i].d, v))
 NaNIffTooSmall ==
   /\ rc.routine # "crossval" => \A k \in DOMAIN ev : IsNaN(ev[k]) <=> SmallSample(rc, log[k[1]].d)
-  /\ phase = "done" => \A k \in DOMAIN ev :
-        IsNaN(ev[k]) <=> (SmallSample(rc, log[k[1]].d) \/ FoldNaN(rc, FoldOfKey(k)))
+  /\ phase = "done" => \A i \in 1..rc.N :
+        IF SmallSample(rc, log[i].d) THEN \A k \in {kk \in DOMAIN ev : kk[1] = i} : IsNaN(ev[k])
+        ELSE \A r \in 1..NRep(rc) : \A v \in 1..NVar(rc) :
+               LET FF == FoldsOfLog(i, r, v) IN
+               \A f \in 1..NFolds(rc) : \A j \in 1..rc.nM : IsNaN(ev[<<i, j, f, r, v>>]) <=> FoldNaN(rc, FF[f])
 OkMask == agg.done /\ rc.routine # "crossval" =>
   /\ \A i \in 1..rc.N : (i \in agg.ok) <=> ~SmallSample(rc, log[i].d)
   /\ \A k \in DOMAIN ev : (k[1] \in agg.ok) <=> ~IsNaN(ev[k])
